@@ -43,7 +43,7 @@ theorem C08_accept_iff (it : Item) :
         · rw [if_neg h2] at h
           refine ⟨m, rfl, by simpa using h1, by simpa using h2, ?_⟩
           cases hb : m.body with
-          | undecodable => rw [hb] at h; simp at h
+          | undecodable _ => rw [hb] at h; simp at h
           | call t => rw [hb] at h; simp at h
           | handshake wf ok v =>
             rw [hb] at h
@@ -69,7 +69,7 @@ theorem handshake_reply (it : Item) :
       · rw [if_pos h2]; simp [MSG_CONNECTFAIL]
       · rw [if_neg h2]
         cases m.body with
-        | undecodable => simp [MSG_CONNECTFAIL]
+        | undecodable _ => simp [MSG_CONNECTFAIL]
         | call t => simp [MSG_CONNECTFAIL]
         | handshake wf ok v => cases wf <;> cases ok <;> cases v <;> simp [MSG_CONNECTFAIL, MSG_CONNECTOK]
 
